@@ -57,6 +57,46 @@ def get_interp():
     return _I
 
 
+def option_assignments(fnode):
+    """Concrete assignments of the boolean options (every combination; others keep their default)."""
+    import itertools
+    nd = len(fnode.args.defaults)
+    npar = len(fnode.args.args)
+    names, choices = [], []
+    for i, p in enumerate(fnode.args.args[1:], 1):
+        if i >= npar - nd:
+            d = fnode.args.defaults[i - (npar - nd)]
+            dv = d.value if isinstance(d, ast.Constant) else '?'
+            names.append(p.arg)
+            if isinstance(dv, bool) or (dv is None and p.arg.startswith(('validate_', 'allow_', 'check_', 'strip_', 'add_'))):
+                choices.append([True, False] + ([None] if dv is None else []))
+            else:
+                choices.append(['<default>'])
+        else:
+            names.append(p.arg)
+            choices.append(['<top>'])
+    for combo in itertools.product(*choices):
+        yield dict(zip(names, combo))
+
+
+def concrete_args(I, fnode, env, number, assignment):
+    args = [number]
+    nd = len(fnode.args.defaults)
+    npar = len(fnode.args.args)
+    for i, p in enumerate(fnode.args.args[1:], 1):
+        v = assignment.get(p.arg, '<default>')
+        if v == '<top>':
+            args.append(TOP)
+        elif v == '<default>':
+            d = fnode.args.defaults[i - (npar - nd)]
+            args.append(I.eval(d, env))
+        elif v is None:
+            args.append(NONE)
+        else:
+            args.append(Bool(v))
+    return args
+
+
 def entry_args(I, fnode, env, number=TOP):
     """Abstract arguments: the number is any object, every option any admissible value."""
     S = I.ctx.S
@@ -174,6 +214,94 @@ def _validate_worker(mn):
         out['crash'] = traceback.format_exc()[-1500:]
     out['wall'] = time.time() - t0
     return out
+
+
+def same_cells(a, b):
+    if isinstance(a, Str) and isinstance(b, Str) and a.sid == b.sid:
+        return True
+    return isinstance(a, Str) and isinstance(b, Str) and a.fixed == b.fixed and a.pre == b.pre and a.suf == b.suf and a.body == b.body \
+        and (a.fixed or ((a.lo or 0) == (b.lo or 0) and a.hi == b.hi))
+
+
+def _c02_worker(mn):
+    """validate() applied to its own results: every return path must hand back the very same cells."""
+    I = get_interp()
+    S = I.ctx.S
+    prog = I.prog
+    r = prog.resolve_name(prog.mods[mn], 'validate')
+    fmod, fn = r[1], r[2]
+    fnode = prog.mods[fmod].funcs[fn]
+    out = {'module': mn, 'paths': 0, 'fixed': 0, 'problems': [], 'crash': None}
+    try:
+      for assignment in option_assignments(fnode):
+        env = Env()
+        I.ctx.scopes = [[]]
+        I.ctx.stack = [(mn, '<entry>')]
+        I.ctx.unsupported = []
+        I.closures = []
+        I.memo = {}
+        args = concrete_args(I, fnode, env, TOP, assignment)
+        opts = ', '.join('%s=%s' % kv for kv in assignment.items() if kv[1] not in ('<default>', '<top>'))
+        outs = I.call_func(Func(fmod, fn), args, {}, fnode, env, multi=True)
+        if not isinstance(outs, list):
+            continue
+        for e0, v in outs:
+            if not isinstance(v, Str):
+                continue
+            e = e0.copy()
+            e.frames = [{}]
+            # non-ASCII results are C15's finding; the fixed point is decided for the ASCII spellings
+            S.refine_all(e, v, S.ASCII)
+            if e.dead:
+                continue
+            out['paths'] += 1
+            desc = (('[%s] ' % opts) if opts else '') + S.describe(e0, v)[:100]
+            # (a) compact() must be the identity on every accepted value
+            rc = prog.resolve_name(prog.mods[mn], 'compact')
+            if rc and rc[0] == 'func':
+                cnode = prog.mods[rc[1]].funcs[rc[2]]
+                ec = e.copy()
+                I.ctx.scopes = [[]]
+                I.ctx.stack = [(mn, '<entry>')]
+                I.closures = []
+                couts = I.call_func(Func(rc[1], rc[2]), [v], {}, cnode, ec, multi=True)
+                cbad = None
+                if isinstance(couts, list):
+                    for ce, cv in couts:
+                        if not same_cells(v, cv):
+                            cbad = S.describe(ce, cv)[:100] if isinstance(cv, Str) else repr(cv)[:60]
+                            break
+                if cbad is not None:
+                    out['problems'].append(('compact', desc, cbad))
+                    continue
+            I.ctx.scopes = [[]]
+            I.ctx.stack = [(mn, '<entry>')]
+            I.closures = []
+            outs2 = I.call_func(Func(fmod, fn), [v] + args[1:], {}, fnode, e, multi=True)
+            if not isinstance(outs2, list) or not outs2:
+                kinds = sorted(set(ev.kind for ev in I.ctx.scopes[0]))
+                out['problems'].append(('rejected', desc, 'every path of validate() applied to its own result raises %s' % kinds))
+                continue
+            ok = True
+            for e2, v2 in outs2:
+                if not same_cells(v, v2):
+                    ok = False
+                    out['problems'].append(('changed', desc, (S.describe(e2, v2)[:100] if isinstance(v2, Str) else repr(v2)[:60])))
+                    break
+            if ok:
+                out['fixed'] += 1
+    except Exception:
+        import traceback
+        out['crash'] = traceback.format_exc()[-1200:]
+    return out
+
+
+def analyse_c02(names=None, jobs=None):
+    jobs = jobs or min(16, os.cpu_count() or 1)
+    I = get_interp()
+    mods = names or I.prog.number_modules()
+    res = _pool_map(_c02_worker, list(mods), jobs)
+    return {r['module']: r for r in res}
 
 
 def _pool_map(fn, items, jobs):
